@@ -790,7 +790,17 @@ if __name__ == "__main__":
              "weight vectors (plus invalid ones), field selections, evaluation dates inside the period (unobservable "
              "sub-periods), off-grid gaps; (policyYear) quarterly accident triangles with flat right edge (plus ragged) x "
              "12 origin months x origin days x policy lengths 1-24 x continuous or not; (premium) writing/earning "
-             "patterns x resolutions x offsets. distinct = distinct canonical input dump; non-trivial = the call "
+             "patterns x resolutions x offsets. SEQUENCE stream (40 % of the cases of every stream): a priming call of "
+             "the same function first (on another generated input, or on the SAME triangle object with another rate "
+             "table / weights / fields / issuance mode / offset), derived accessors of the input read before and compared "
+             "after, the call, the result's accessors compared with values recomputed from its cells, the freshly "
+             "created parts of the result damaged in place, then the call AGAIN on the same objects: both dumps must be "
+             "identical and the input unchanged; 30 % of the cases share ndarray objects between fields and cells; "
+             "default arguments are passed implicitly where the generated options equal the defaults "
+             "(convert_to_dollars with and without rates, disaggregate_experience(tri, res), "
+             "accident_quarter_to_policy_year(tri), program_earned_premium without offset/mode); module tables "
+             "(DEFAULT_EXCHANGE_RATES, CURRENCY_FIELDS, DEFAULT_INTERPOLATION_FIELDS) and list/array arguments must be "
+             "unchanged afterwards. distinct = distinct canonical input dump; non-trivial = the call "
              "succeeded and changed something (a foreign slice, more cells out than in, a non-empty result, more than "
              "one output bucket)",
         assumptions=["bridge theorems (Bool predicate true on the model's output): currency_spec_bridge needs cells that do "
